@@ -83,8 +83,6 @@ builtins.VF = HUB
 
 
 # root{Z, P{A, B, H}} with A -a-> B, P -b-> Z, Z -a-> P, A -b-> H (H entered from inside its parent while P is active)
-FIXED = [{'N': 5, 'par': [-1, 0, 0, 2, 2, 2][:5], 'kind': [cg.COMPOUND, cg.BASIC, cg.COMPOUND, cg.BASIC, cg.BASIC],
-          'init': [2, -1, 3, -1, -1], 'tr': []}]
 FIXED = [{'N': 6, 'par': [-1, 0, 0, 2, 2, 2], 'kind': [cg.COMPOUND, cg.BASIC, cg.COMPOUND, cg.BASIC, cg.BASIC, kh],
           'init': [2, -1, 3, -1, -1, 3], 'tr': [[3, 4, 1], [2, 1, 2], [1, 2, 1], [3, 5, 2]]} for kh in (cg.SH, cg.DH)]
 
